@@ -38,7 +38,8 @@ TNewObject == /\ Is("NewObject")
               /\ StateMatches("Preset", bits', E.post) /\ Adv
 TTemplate == /\ Is("Template") /\ Template
              /\ Check("TemplateGenerated", E.ok) /\ Check("TemplateYaml", E.yaml) /\ Check("TemplateSchema", E.schema) /\ Adv
-TGetConfig == Is("GetConfig") /\ GetConfig /\ Check("ConfigWritten", E.ok) /\ Check("ConfigYaml", E.yaml) /\ Adv
+TGetConfig == /\ Is("GetConfig") /\ GetConfig
+              /\ Check("ConfigWritten", E.ok) /\ Check("ConfigYaml", E.yaml) /\ Check("ConfigSchema", E.schema) /\ Adv
 TLoadConfig == /\ Is("LoadConfig") /\ LoadConfig
                /\ Check(IF act.a = "Template" THEN "TemplateLoads" ELSE "ConfigLoads", E.ok)
                /\ StateMatches(IF act.a = "Template" THEN "TemplateState" ELSE "ConfigRoundTrip", bits', E.post) /\ Adv
